@@ -156,6 +156,15 @@ theorem sqrefRead_sqrefText (rs : List Range) (hne : rs ≠ []) (h : ∀ ρ ∈ 
   unfold sqrefRead sqrefText
   rw [splitCh_joinCh ' ' (rs.map Range.print) (by simpa using hne)
     (by intro p hp; obtain ⟨ρ, _, rfl⟩ := List.mem_map.mp hp; exact space_free_print ρ)]
+  have hf : (rs.map Range.print).filter (fun p => !p.isEmpty) = rs.map Range.print := by
+    apply List.filter_eq_self.2
+    intro p hp
+    obtain ⟨ρ, hρ, rfl⟩ := List.mem_map.mp hp
+    have := print_ne_nil ρ (h ρ hρ).1
+    cases hq : ρ.print with
+    | nil => exact absurd hq this
+    | cons a r => rfl
+  rw [hf]
   exact mapM_parse_print rs h
 
 theorem sqrefText_ne_nil (rs : List Range) (hne : rs ≠ []) (h : ∀ ρ ∈ rs, Range.IsShape ρ ∧ Range.InBounds ρ) :
